@@ -21,12 +21,22 @@ fn text(t: &J) -> String {
         "leaf" => leaf_text(t["l"].as_str().unwrap()).to_string(),
         "arr" => format!("[{}]", t["e"].as_array().map(|a| a.iter().map(text).collect::<Vec<_>>().join(",")).unwrap_or_default()),
         "obj" => format!("{{{}}}", t["m"].as_object().map(|m| m.iter().map(|(k, v)| format!("\"{k}\":{}", text(v))).collect::<Vec<_>>().join(",")).unwrap_or_default()),
+        "tower" => {
+            let (d, sh) = (t["d"].as_u64().unwrap(), t["sh"].as_str().unwrap());
+            let mut s = leaf_text(t["l"].as_str().unwrap()).to_string();
+            for lvl in 1..=d {
+                let arr = sh == "arr" || (sh == "alt" && lvl % 2 == 0);
+                s = if arr { format!("[{s}]") } else { format!("{{\"a\":{s}}}") };
+            }
+            s
+        }
         k => panic!("kind {k}"),
     }
 }
 fn top_tag(t: &J) -> &'static str {
     match t["k"].as_str().unwrap() {
         "arr" => "array", "obj" => "map",
+        "tower" => { let (d, sh) = (t["d"].as_u64().unwrap(), t["sh"].as_str().unwrap()); if sh == "arr" || (sh == "alt" && d % 2 == 0) { "array" } else { "map" } }
         _ => { let l = t["l"].as_str().unwrap(); match l.as_bytes()[0] { b'i' | b'u' => "int", b'f' if l != "false" => "float", b's' => "string", b'n' => "null", _ => "bool" } }
     }
 }
